@@ -1,5 +1,6 @@
 import IstioModel.Common.Wire
 import IstioModel.C16.JoinDriver
+import IstioModel.C16.ExactDriver
 
 /-!
 Driver part for the stream `mem`: the in-memory config store `pilot/pkg/config/memory`
@@ -84,6 +85,7 @@ structure TopState where
   mode : Nat := 0
   a : AllState := {}
   m : MState := {}
+  x : XState := {}
 
 def stepTop (t : TopState) (toks : List String) : TopState × String :=
   match toks with
@@ -91,6 +93,9 @@ def stepTop (t : TopState) (toks : List String) : TopState × String :=
     if stream.startsWith "mem" then
       let r := stepM {} toks
       ({ mode := 1, m := r.1 }, r.2)
+    else if stream.startsWith "exact" then
+      let r := stepX {} toks
+      ({ mode := 2, x := r.1 }, r.2)
     else
       let r := stepAll {} toks
       ({ mode := 0, a := r.1 }, r.2)
@@ -98,6 +103,9 @@ def stepTop (t : TopState) (toks : List String) : TopState × String :=
     if t.mode == 1 then
       let r := stepM t.m toks
       ({ t with m := r.1 }, r.2)
+    else if t.mode == 2 then
+      let r := stepX t.x toks
+      ({ t with x := r.1 }, r.2)
     else
       let r := stepAll t.a toks
       ({ t with a := r.1 }, r.2)
